@@ -452,8 +452,9 @@ func (d *Data) handlePostLabels(ctx *datastore.VersionedCtx, w http.ResponseWrit
 	if err := json.Unmarshal(jsonBytes, &data); err != nil {
 		return err
 	}
-	d.mutateMu.Lock()
-	defer d.mutateMu.Unlock()
+	// Refuse the request as a whole if any entry is not a label and a list of elements: what is stored
+	// here is read back as such a list by every later request on the label.
+	toStore := make(map[uint64][]byte, len(data))
 	for k, v := range data {
 		label, err := strconv.ParseUint(k, 10, 64)
 		if err != nil {
@@ -462,8 +463,17 @@ func (d *Data) handlePostLabels(ctx *datastore.VersionedCtx, w http.ResponseWrit
 		if label == 0 {
 			continue
 		}
+		var elems ElementsNR
+		if err := json.Unmarshal([]byte(v), &elems); err != nil {
+			return fmt.Errorf("elements for label %d are not a JSON list of elements: %v", label, err)
+		}
+		toStore[label] = []byte(v)
+	}
+	d.mutateMu.Lock()
+	defer d.mutateMu.Unlock()
+	for label, val := range toStore {
 		tk := NewLabelTKey(label)
-		if err := store.Put(ctx, tk, []byte(v)); err != nil {
+		if err := store.Put(ctx, tk, val); err != nil {
 			return err
 		}
 	}
